@@ -74,8 +74,9 @@ type Params struct {
 	Keys   []string // dedup-by-key value per request ("" = none); nil = derive from Dedup
 	Ign    [][]int  // do-not-send-cids per request
 	Skip   []int    // user do-not-send-first-blocks per request
-	Cancel []int    // >0: the requestor's block hook terminates request i with an error at this block
-	Peers  []int    // issuing requestor of each request: 0 = node A, 1 = node B (a second requestor peer)
+	Cancel []int    // 0<k<100: the requestor's block hook terminates request i with an error at block k; 100+k: the hook PAUSES
+	// request i at block k (PauseRequest), it is never resumed: the harness cancels it once everything else has ended
+	Peers []int // issuing requestor of each request: 0 = node A, 1 = node B (a second requestor peer)
 }
 
 func bits(s string, n int) ([]bool, bool) {
@@ -363,11 +364,14 @@ func runSetAt(w *tn.World, qs []*tn.Query, which []int, locA, locB, rem []int, p
 		s.WriteGate[p.WG] = g
 	}
 	s.OnReqBlock = func(r *tn.ReqRun, nth int, bd graphsync.BlockData, ha graphsync.IncomingBlockHookActions) {
-		if k := p.Cancel[which[r.Idx]]; k > 0 && nth == k {
+		if k := p.Cancel[which[r.Idx]]; k > 0 && k < 100 && nth == k {
 			ha.TerminateWithError(errors.New("stopped by the requestor's block hook"))
+		} else if k >= 100 && nth == k-100 {
+			ha.PauseRequest()
 		}
 	}
 	ro.startStore = map[int][]int{}
+	pausedCancelled := map[int]bool{}
 	rng := rand.New(rand.NewSource(p.Sched))
 	for step := 0; ; step++ {
 		for k, r := range rr {
@@ -443,6 +447,21 @@ func runSetAt(w *tn.World, qs []*tn.Query, which []int, locA, locB, rem []int, p
 				continue
 			}
 			if !allDone {
+				// requests paused on purpose by the requestor's hook are ended by their caller now
+				cancelled := false
+				s.Locked(func() {
+					for _, r := range rr {
+						if !r.Closed() && p.Cancel[which[r.Idx]] >= 100 && !pausedCancelled[r.Idx] {
+							pausedCancelled[r.Idx] = true
+							cancelled = true
+							r.CancelByCaller()
+						}
+					}
+				})
+				if cancelled {
+					s.Quiesce()
+					continue
+				}
 				var open []string
 				s.Locked(func() {
 					for _, r := range rr {
@@ -944,7 +963,7 @@ func judgeCase(out *reg.Out, w *tn.World, qs []*tn.Query, loc, rem []int, p Para
 				}
 			}
 		}
-		if p.Cancel[i] > 0 {
+		if p.Cancel[i] != 0 {
 			anyCancel = true
 		}
 		so := runSetAt(w, qs, []int{i}, la, lb, rem, p, true)
@@ -1001,7 +1020,7 @@ func judgeCase(out *reg.Out, w *tn.World, qs []*tn.Query, loc, rem []int, p Para
 	// ---- the solo runs: a failure here is never a known finding of C20 (impossible on the unchanged
 	// tree outside C02's input classes)
 	for i, so := range solo {
-		if p.Cancel[i] > 0 {
+		if p.Cancel[i] != 0 {
 			continue
 		}
 		if so.hang != "" {
@@ -1011,7 +1030,7 @@ func judgeCase(out *reg.Out, w *tn.World, qs []*tn.Query, loc, rem []int, p Para
 		}
 	}
 	for i, so := range solo {
-		if p.Cancel[i] > 0 {
+		if p.Cancel[i] != 0 {
 			continue
 		}
 		if len(so.res[0].Hard) > 0 && qs[i].RefTrav(locS, remS)[0].Avail {
@@ -1048,7 +1067,7 @@ func judgeCase(out *reg.Out, w *tn.World, qs []*tn.Query, loc, rem []int, p Para
 	}
 	out.Cov("verdict.given")
 	for i := 0; i < n; i++ {
-		if p.Cancel[i] > 0 {
+		if p.Cancel[i] != 0 {
 			continue // failed on purpose by the requestor's hook: nothing to compare
 		}
 		a, b := solo[i].res[0], conc.res[i]
@@ -1156,8 +1175,13 @@ func emit(wr *bufio.Writer, id string, p Params, loc, rem []int) {
 	if nz(p.Cancel) {
 		extra += " cancel=" + tn.FmtInts(p.Cancel)
 	}
-	fmt.Fprintf(wr, "case %s dag=%d:%d q=%s start=%s sched=%d w=%d,%d,%d wr=%s ws=%s qg=%s sg=%s wg=%s dedup=%s peers=%s%s\n",
-		id, p.Seed, p.MB, strings.Join(qs, ","), tn.FmtInts(p.Start), p.Sched, p.W[0], p.W[1], p.W[2], tn.FmtInts(p.WR), tn.FmtInts(p.WS), fmtBits(p.QG), fmtBits(p.SG), wg, p.Dedup, fmtBits(pb), extra)
+	hdr := fmt.Sprintf("dag=%d:%d q=%s start=%s sched=%d w=%d,%d,%d wr=%s ws=%s qg=%s sg=%s wg=%s dedup=%s peers=%s%s",
+		p.Seed, p.MB, strings.Join(qs, ","), tn.FmtInts(p.Start), p.Sched, p.W[0], p.W[1], p.W[2], tn.FmtInts(p.WR), tn.FmtInts(p.WS), fmtBits(p.QG), fmtBits(p.SG), wg, p.Dedup, fmtBits(pb), extra)
+	// a generated case that the harness itself would reject as `bad-case` silently loses coverage
+	if _, ok := parseHeader("case " + id + " " + hdr); !ok {
+		panic("concur generator: emitted a header that does not parse: " + hdr)
+	}
+	fmt.Fprintf(wr, "case %s %s\n", id, hdr)
 	fmt.Fprintln(wr, "remote", tn.FmtInts(rem))
 	if len(loc) > 0 {
 		ss := make([]string, len(loc))
@@ -1312,6 +1336,50 @@ func genCase(r *rand.Rand, i int) (Params, []int, []int) {
 		p.Skip = make([]int, n)
 		p.Cancel = make([]int, n)
 		switch i % 11 {
+		case 7:
+			// request 0 is PAUSED by the requestor's block hook after its first block(s) and never resumed,
+			// while the responder has already sent more of it (its late messages, blocks included, are
+			// dropped by the offline loader); the other requests run meanwhile over a responder that lacks
+			// some of their blocks (missing entries in their metadata)
+			p.Cancel[0] = 100 + 1 + r.Intn(2)
+			// every other time the responder's executor for request 0 is gated too, so that its late
+			// block messages interleave with the other requests' messages on the wire
+			p.QG[0], p.SG[0] = true, r.Intn(2) == 0
+			p.WR[0] = 1 + r.Intn(3)
+			for k := 1; k < n; k++ {
+				p.Start[k] = r.Intn(4)
+				p.QG[k], p.SG[k] = r.Intn(2) == 0, true
+			}
+			loc = nil
+			{
+				// the responder lacks one or two of the FIRST links below the root of another request: their
+				// metadata entries say `missing` early in that request's response, right after request 0's
+				// late messages have been dropped
+				drop := map[int]bool{}
+				other := qs[1+r.Intn(n-1)]
+				for d := 0; d < 1+r.Intn(2) && len(other.LT) > 1; d++ {
+					drop[other.LT[1+r.Intn(min(3, len(other.LT)-1))].Block] = true
+				}
+				// apart from those the responder holds everything (request 0's response is long), and the
+				// requests have their own dedup scopes (no cross-request de-duplication: the known finding
+				// stays out of the way)
+				var rem2 []int
+				for b := 0; b < nb; b++ {
+					isRoot := false
+					for _, q := range qs {
+						if q.LT[0].Block == b {
+							isRoot = true
+						}
+					}
+					if !drop[b] || isRoot {
+						rem2 = append(rem2, b)
+					}
+				}
+				rem = rem2
+				p.Dedup = "distinct"
+			}
+			p.WG = -1
+			p.Peers = make([]int, n)
 		case 8:
 			// request 0 carries a dedup key AND a do-not-send-cids list (blocks it keeps elsewhere: they are
 			// not in the store the other requests use); the others use the default scope or other keys.
